@@ -788,7 +788,7 @@ func (p *pp) printArg(arg interface{}, verb rune) {
 				return
 			}
 
-			if safeTypeRegistry[t] {
+			if isRegisteredSafe(f, t) {
 				defer p.startSafeOverride().restore()
 			}
 
@@ -831,7 +831,7 @@ func (p *pp) printValue(value reflect.Value, verb rune, depth int) {
 			return
 		}
 
-		if safeTypeRegistry[t] {
+		if isRegisteredSafe(value, t) {
 			defer p.startSafeOverride().restore()
 		}
 
